@@ -139,7 +139,22 @@ def run_model(lines, timeout=600):
 
 def run_impl(lines, timeout=600, release=False, per_case_timeout=3.0):
     binp = HARNESS_BIN_REL if release else HARNESS_BIN
-    return _run_sharded([binp, "worker"], lines, timeout, supervise=True, per_case_timeout=per_case_timeout)
+    res = _run_sharded([binp, "worker"], lines, timeout, supervise=True, per_case_timeout=per_case_timeout)
+    # a case that did not answer within per_case_timeout (microseconds are normal) is run again, alone, with
+    # ten times the allowance before it is called a hang: on a machine loaded by other jobs a worker can be
+    # descheduled for seconds; a real non-terminating loop still hangs
+    hung = [l for l in lines if res.get(l.split(" ", 1)[0]) == "HANG"]
+    if hung and len(hung) <= 40:
+        def alone(l):
+            return _run_sharded([binp, "worker"], [l], per_case_timeout * 10 + 30, supervise=True, per_case_timeout=per_case_timeout * 10)
+        again = {}
+        for l in hung[:3]:
+            again.update(alone(l))
+        if "HANG" not in again.values():          # the first three were the machine, not the code: confirm the rest too
+            for l in hung[3:]:
+                again.update(alone(l))
+        res.update(again)
+    return res
 
 
 ABNORMAL_SEEN = {"n": 0}
